@@ -66,7 +66,7 @@ def pairing_post(case, st, ret, interp):
         raise Violation("pairing() is not final_exponentiation(miller_loop(affine q, affine p)): %s" % (str(got)[:200],))
     return [('function_of_affine_views_only', [])]
 SPECS.append(FnSpec('pairings::pairing', None, r'^pairings::pairing$', None, ('Fq', 'Fr'),
-                    lambda: [Case('all', [ref(g1('p')), ref(g2('q'))])], pairing_post, extra=EX, prop=('C03', 'C01', 'C16')))
+                    lambda: [Case('all', [ref(g1('p')), ref(g2('q'))])], pairing_post, extra=EX, prop=('C03', 'C01', 'C16', 'C02')))
 
 # ---- pairings::fast_pairing = final_exp(prepared(q).miller_loop(p))
 def fastp_post(case, st, ret, interp):
@@ -76,7 +76,7 @@ def fastp_post(case, st, ret, interp):
         raise Violation("fast_pairing() is not final_exp(G2Prepared::from(q).miller_loop(p))")
     return [('structure', [])]
 SPECS.append(FnSpec('pairings::fast_pairing', None, r'^pairings::fast_pairing$', None, ('Fq', 'Fr'),
-                    lambda: [Case('all', [ref(g1('p')), ref(g2('q'))])], fastp_post, extra=EX, prop=('C03',)))
+                    lambda: [Case('all', [ref(g1('p')), ref(g2('q'))])], fastp_post, extra=EX, prop=('C03', 'C02')))
 
 # ---- G2Prepared::from(identity, any representative) is the empty table
 def from_post(case, st, ret, interp):
@@ -85,7 +85,7 @@ def from_post(case, st, ret, interp):
         raise Violation("G2Prepared::from(identity) must be the empty coefficient table")
     return [('identity_gives_empty_table', [])]
 SPECS.append(FnSpec('pairings::G2Prepared::from(identity)', 'src/pairings.rs', r'<impl>::from$', r'-> G2Prepared$', ('Fq', 'Fr'),
-                    lambda: [Case('identity', [g2('q', ZERO2)])], from_post, extra=EX, prop=('C03', 'C01', 'C16')))
+                    lambda: [Case('identity', [g2('q', ZERO2)])], from_post, extra=EX, prop=('C03', 'C01', 'C16', 'C02')))
 
 # ---- G2Prepared::miller_loop: identity G1 argument (any x, y) or empty table -> one
 def ml_cases():
@@ -96,7 +96,7 @@ def ml_post(case, st, ret, interp):
         raise Violation("prepared Miller loop must return one for the identity (any representative) / the empty table")
     return [('identity_gives_one', [])]
 SPECS.append(FnSpec('pairings::G2Prepared::miller_loop(identity)', 'src/pairings.rs', r'<impl>::miller_loop$', r'^\(&G2Prepared', ('Fq', 'Fr'),
-                    ml_cases, ml_post, extra=EX, prop=('C03', 'C01', 'C16')))
+                    ml_cases, ml_post, extra=EX, prop=('C03', 'C01', 'C16', 'C02')))
 
 # ---- lib.rs entry points
 def lib_fast_post(case, st, ret, interp):
@@ -111,7 +111,7 @@ def lib_fast_post(case, st, ret, interp):
 def lib_fast_cases():
     vals = [mkval('LG1', 'p'), mkval('LG2', 'q')]
     return [Case('all', list(vals), None, {'vals': vals})]
-SPECS.append(FnSpec('lib::fast_pairing', None, r'^fast_pairing$', r'^\(LG1, LG2\) -> LGt$', ('Fq', 'Fr', 'Fq12'), lib_fast_cases, lib_fast_post, extra=EX, prop=('C03',)))
+SPECS.append(FnSpec('lib::fast_pairing', None, r'^fast_pairing$', r'^\(LG1, LG2\) -> LGt$', ('Fq', 'Fr', 'Fq12'), lib_fast_cases, lib_fast_post, extra=EX, prop=('C03', 'C02')))
 
 def lib_prep_from_post(case, st, ret, interp):
     calls = [n for n in st.notes if isinstance(n, tuple) and n[0] == 'ufcall' and 'normalize' in n[1]]
@@ -124,7 +124,7 @@ def lib_prep_from_post(case, st, ret, interp):
 def lib_prep_from_cases():
     vals = [mkval('LG2', 'q')]
     return [Case('all', list(vals), None, {'vals': vals})]
-SPECS.append(FnSpec('lib::G2Prepared::from', 'src/lib.rs', r'<impl>::from$', r'^\(LG2\) -> G2Prepared$', ('Fq', 'Fr', 'Fq12'), lib_prep_from_cases, lib_prep_from_post, extra=EX, prop=('C03',)))
+SPECS.append(FnSpec('lib::G2Prepared::from', 'src/lib.rs', r'<impl>::from$', r'^\(LG2\) -> G2Prepared$', ('Fq', 'Fr', 'Fq12'), lib_prep_from_cases, lib_prep_from_post, extra=EX, prop=('C03', 'C02')))
 
 def lib_prep_pairing_post(case, st, ret, interp):
     calls = [n for n in st.notes if isinstance(n, tuple) and n[0] == 'ufcall' and 'normalize' in n[1]]
@@ -139,4 +139,4 @@ def lib_prep_pairing_cases():
     prep = S('G2Prepared', [('vecsym', 'coeffs')])
     p = mkval('LG1', 'p')
     return [Case('all', [ref(prep), ref(p)], None, {'vals': [prep, p]})]
-SPECS.append(FnSpec('lib::G2Prepared::pairing', 'src/lib.rs', r'<impl>::pairing$', r'^\(&G2Prepared, &LG1\) -> LGt$', ('Fq', 'Fr', 'Fq12'), lib_prep_pairing_cases, lib_prep_pairing_post, extra=EX, prop=('C03',)))
+SPECS.append(FnSpec('lib::G2Prepared::pairing', 'src/lib.rs', r'<impl>::pairing$', r'^\(&G2Prepared, &LG1\) -> LGt$', ('Fq', 'Fr', 'Fq12'), lib_prep_pairing_cases, lib_prep_pairing_post, extra=EX, prop=('C03', 'C02')))
